@@ -65,7 +65,7 @@ def main():
                     print('   ', l[:400])
 
                 if r.returncode not in (0, 1):
-                    print(r.stdout[-1500:])
+                    print(r.stdout[-12000:])
 
                 out.setdefault('results', []).append({'prop': p, 'seed': seed, 'exit': r.returncode,
                                                       'signatures': [l.split(':', 1)[1].strip() for l in lines if l.startswith('  signature')]})
